@@ -98,6 +98,8 @@ type loopInfo struct {
 	modCells   []modCell
 	modMaps    []*ssa.MapUpdate
 	frameNames []string
+	onlyRoot   *Term // `writes-only elems(s)`: the root of the one object this loop writes
+	onlyNames  []string
 }
 
 type deferred struct {
@@ -591,6 +593,18 @@ func (vc *VC) enterLoop(fr *Frame, li *loopInfo, merged *State, phiEntry map[*ss
 		li.headVals[phi] = v
 	}
 	mods, all := vc.loopMods(fr, li)
+	if ls != nil && ls.WritesOnly != nil && !all {
+		env := vc.newEnv(fr, merged, fr.entry)
+		env.phiOverride = phiEntry
+		env.at = li.header
+		v, vt := vc.specExpr(env, ls.WritesOnly.Expr)
+		if _, ok := vt.Underlying().(*types.Slice); !ok {
+			vc.bindError(ls.WritesOnly, "writes-only needs elems(<slice>)")
+		} else {
+			r := vc.q.Define(fmt.Sprintf("%s$only%d", fr.prefix, li.ordinal), Root(SBase(v)))
+			li.onlyRoot = &r
+		}
+	}
 	if all {
 		vc.havocAll(st, fr.allLocalRoots())
 	} else {
@@ -610,6 +624,11 @@ func (vc *VC) enterLoop(fr *Frame, li *loopInfo, merged *State, phiEntry map[*ss
 				a0 := vc.top.entry.alloc.S
 				vc.q.Raw(fmt.Sprintf("(assert (forall ((r Int)) (! (=> (< r %s) (= (select %s r) (select %s r))) :pattern ((select %s r)))))", a0, nm.S, prev.S, nm.S))
 				li.frameNames = append(li.frameNames, name)
+			}
+			if li.onlyRoot != nil && strings.HasPrefix(string(prev.Sort), "(Array Int ") && strings.HasPrefix(name, "M") {
+				// checked at every back edge: every object but the one named keeps its rows
+				vc.q.Raw(fmt.Sprintf("(assert (forall ((r Int)) (! (=> (not (= r %s)) (= (select %s r) (select %s r))) :pattern ((select %s r)))))", li.onlyRoot.S, nm.S, prev.S, nm.S))
+				li.onlyNames = append(li.onlyNames, name)
 			}
 		}
 	}
@@ -737,6 +756,22 @@ func (vc *VC) checkLoopBack(fr *Frame, li *loopInfo, est *State, predIdx int) {
 		}
 		vc.addObl(fr, est, "loop-frame", fmt.Sprintf("loop%d/%s", li.ordinal, name), goal,
 			&Clause{Kind: "loop frame-old", Text: "objects that existed at function entry are not modified (" + name + ")", File: fr.con.File, Line: fr.con.Line}, token.NoPos)
+	}
+	for _, name := range li.onlyNames {
+		head := li.headSt.mem[name]
+		cur, ok := est.mem[name]
+		if !ok || cur.S == head.S {
+			continue
+		}
+		r := vc.q.Fresh("lw$r", SInt)
+		var goal Term
+		if strings.HasPrefix(string(cur.Sort), "(Array Int (Array Path") {
+			p := vc.q.Fresh("lw$p", SPath)
+			goal = Implies(Not(Eq(r, *li.onlyRoot)), Eq(Select(Select(cur, r), p), Select(Select(head, r), p)))
+		} else {
+			goal = Implies(Not(Eq(r, *li.onlyRoot)), Eq(Select(cur, r), Select(head, r)))
+		}
+		vc.addObl(fr, est, "loop-frame", fmt.Sprintf("loop%d/only/%s", li.ordinal, name), goal, ls.WritesOnly, token.NoPos)
 	}
 	if ls.Decreases != nil && li.hasVar {
 		env := vc.newEnv(fr, est, fr.entry)
